@@ -30,6 +30,7 @@ type Obligation struct {
 	Verdict Verdict `json:"-"`
 	V       string  `json:"verdict"`
 	Detail  string  `json:"detail,omitempty"` // extracted term / path / message
+	Sig     string  `json:"deviation,omitempty"` // for violations: canonical signature of the deviation (known findings match on it)
 	Config  string  `json:"config,omitempty"`
 	Trivial bool    `json:"-"`
 }
@@ -122,6 +123,7 @@ type Finding struct {
 	Rule       string   `json:"rule"`
 	Key        string   `json:"key"`
 	What       string   `json:"what"`
+	Sig        string   `json:"deviation,omitempty"` // when set, must equal the obligation's deviation signature
 	Design     int      `json:"design_finding,omitempty"`
 }
 
@@ -169,7 +171,16 @@ var tildeRE = regexp.MustCompile(`~\d+$`)
 func (k *KnownFile) Match(prop string, o *Obligation) *Finding {
 	for i := range k.Findings {
 		f := &k.Findings[i]
-		if f.appliesTo(prop) && f.Rule == o.Rule && f.Key == o.Key {
+		if !f.appliesTo(prop) || f.Rule != o.Rule {
+			continue
+		}
+		keyOK := f.Key == o.Key
+		if !keyOK && strings.HasSuffix(f.Key, ":*") {
+			// all members of one named family/class (template-level finding); the deviation
+			// signature below keeps the match specific
+			keyOK = strings.HasPrefix(o.Key, strings.TrimSuffix(f.Key, "*")) && f.Sig != ""
+		}
+		if keyOK && (f.Sig == "" || f.Sig == o.Sig) {
 			return f
 		}
 	}
@@ -266,7 +277,7 @@ func (r *Result) Finish(known *KnownFile) int {
 			continue
 		}
 		if f := known.Match(r.Property, o); f != nil && o.Verdict == Violation {
-			id := f.Rule + "|" + f.Key
+			id := f.Rule + "|" + f.Key + "|" + f.Sig
 			if !knownSeen[id] {
 				knownSeen[id] = true
 				lines = append(lines, fmt.Sprintf("KNOWN-FINDING: property=%s rule=%s key=%s %s", r.Property, f.Rule, f.Key, f.What))
